@@ -273,5 +273,5 @@ def precheck(tier, seed):
 MANIFEST = {
     "category": "other",
     "text": "Bounded symbolic verification: the real get_closest/digitize_data are executed on symbolic grids (any strictly increasing reals, length up to the stated n) and a symbolic value; on every path z3 proves membership, nearest-ness (exact and under abstract rounding), idempotence and column-wise action. Covers every placement of the value relative to the grid (inside, outside, mid-points, grid points) which no sampled test can.",
-    "note": "Floats are modelled as exact reals and as reals with an uninterpreted monotone rounding function (not bit-precise binary64); numpy's searchsorted/indexing is executed, not modelled; bounds on n in the evidence; z3 is trusted.",
+    "note": "Floats are modelled as exact reals and as reals with an uninterpreted monotone rounding function (not bit-precise binary64); a bit-precise IEEE half-precision model covers 1-element grids in the quick tier and 2-element grids in the thorough tier; numpy's searchsorted/indexing is executed, not modelled; bounds on n in the evidence; z3 is trusted.",
 }
